@@ -1247,15 +1247,32 @@ func c15RoundE(c *Ctx, w *World) {
 		ex := w.Fn("common/math", "", "Exp")
 		c.sawFunc(fname(ex))
 		n := 0
+		type sq struct {
+			fn *ssa.Function
+			ci ssa.CallInstruction
+		}
+		var sqs []sq
+		scope := []*ssa.Function{ex}
 		for _, ci := range callInstrs(ex) {
-			o := calleeObj(ci)
-			if o == nil || o.Name() != "Mul" || o.Pkg() == nil || o.Pkg().Path() != "math/big" {
-				continue
+			if g := ci.Common().StaticCallee(); g != nil && g.Pkg == ex.Pkg && g.Blocks != nil && g != ex {
+				scope = append(scope, g) // the per-word loop split off into a helper
 			}
-			a := callArgs(ci)
-			if len(a) != 2 || stripConvNoBind(a[0]) != stripConvNoBind(a[1]) {
-				continue // not the squaring
+		}
+		for _, g := range scope {
+			for _, ci := range callInstrs(g) {
+				o := calleeObj(ci)
+				if o == nil || o.Name() != "Mul" || o.Pkg() == nil || o.Pkg().Path() != "math/big" {
+					continue
+				}
+				a := callArgs(ci)
+				if len(a) != 2 || stripConvNoBind(a[0]) != stripConvNoBind(a[1]) {
+					continue // not the squaring
+				}
+				sqs = append(sqs, sq{g, ci})
 			}
+		}
+		for _, q := range sqs {
+			ex, ci := q.fn, q.ci
 			var hdr *ssa.BasicBlock
 			for _, b := range ex.Blocks {
 				if isLoopHeader(b) && naturalLoop(b)[ci.Block()] {
@@ -1283,9 +1300,37 @@ func c15RoundE(c *Ctx, w *World) {
 					if !exits {
 						continue
 					}
-					if bo, isB := iff.Cond.(*ssa.BinOp); isB && (bo.Op == token.LSS || bo.Op == token.LEQ || bo.Op == token.GTR || bo.Op == token.GEQ) {
-						if k, isK := constInt(bo.Y); isK && (k == 64 || k == 32 || k == 63 || k == 31) {
-							counted = true
+					if bo, isB := iff.Cond.(*ssa.BinOp); isB && (bo.Op == token.LSS || bo.Op == token.LEQ || bo.Op == token.GTR || bo.Op == token.GEQ || bo.Op == token.NEQ) {
+						// a counter: a value of the loop head that is stepped by a constant each round and starts at a
+						// constant, compared with a constant — not with anything that depends on the exponent word
+						for _, side := range [][2]ssa.Value{{bo.X, bo.Y}, {bo.Y, bo.X}} {
+							if _, isK := constInt(side[1]); !isK {
+								continue
+							}
+							iv := stripConvNoBind(side[0])
+							if st, isSt := iv.(*ssa.BinOp); isSt && (st.Op == token.ADD || st.Op == token.SUB) {
+								iv = stripConvNoBind(st.X) // the test is made on the stepped value
+							}
+							ph, isPhi := iv.(*ssa.Phi)
+							if !isPhi {
+								continue
+							}
+							stepped, consts := false, true
+							for _, e := range ph.Edges {
+								e = stripConvNoBind(e)
+								if st, isSt := e.(*ssa.BinOp); isSt && (st.Op == token.ADD || st.Op == token.SUB) && stripConvNoBind(st.X) == ssa.Value(ph) {
+									if _, isK := constInt(st.Y); isK {
+										stepped = true
+										continue
+									}
+								}
+								if _, isK := constInt(e); !isK {
+									consts = false
+								}
+							}
+							if stepped && consts {
+								counted = true
+							}
 						}
 					}
 				}
